@@ -150,7 +150,8 @@ pub fn plans(ctx: &WorkerCtx) -> Vec<Plan> {
 // ---------------------------------------------------------------------------
 /// b/e < frac decided exactly (frac = m * 2^exp as a dyadic rational, big-integer comparison). A correctly
 /// rounded quotient of two exactly converted integers is monotone, so an implementation that refuses when
-/// fl(b/e) >= frac never allows a share that is not below the limit; for times under 2^53 ns the exact
+/// fl(b/e) >= frac never allows a share that is not below the limit (above 2^53 ns, where the conversions
+/// round, the same holds for an implementation that rounds the dividend up and the divisor down); the exact
 /// comparison therefore raises no alarm on such an implementation, and no slack is needed.
 fn share_below_ns(b: u64, e: u64, frac: f64) -> bool {
     if !(frac > 0.0) || b == 0 {
@@ -242,6 +243,43 @@ pub fn std_time_dfs(cfg: &Cfg, depth: usize) -> (u64, Option<(Vec<(String, i64)>
     }
     (calls, None)
 }
+/// Spans above 2^53 ns (104 days), where the conversion of a nanosecond count to f64 is no longer exact: histories
+/// BlockingBegin at t0, BlockingEnd at t0 + b, NormalRecv at t0 + e with b / e exactly equal to (or just above) the
+/// set fraction, budget 0, no replace. Returns (calls, failures as (signature, message, replay)).
+pub fn std_time_huge() -> (u64, Vec<(String, String, Value)>) {
+    use maybenot::event::TriggerEvent as T;
+    let day = 86_400u64 * 1_000_000_000;
+    let mut calls = 0u64;
+    let mut fails: Vec<(String, String, Value)> = vec![];
+    for (frac, num, den) in [(0.75f64, 3u64, 4u64), (0.875, 7, 8), (0.5, 1, 2)] {
+        for own in [true, false] {
+            for k in 0..400u64 {
+                for extra in [0u64, 1] {
+                    let e = 200 * day + den * k;
+                    let b = e / den * num + extra; // share == frac (extra 0) or just above it (extra 1)
+                    let m = fam::blocker(0, false, 0, if own { frac } else { 0.0 });
+                    let t0 = std::time::Instant::now();
+                    let r = std::panic::catch_unwind(std::panic::AssertUnwindSafe(|| {
+                        let mut f = maybenot::Framework::new(vec![m], 0.0, if own { 0.0 } else { frac }, t0, crate::rng::WordRng::new(&[], 5)).expect("framework");
+                        let _ = f.trigger_events(&[T::BlockingBegin { machine: mid(0) }], t0).count();
+                        let _ = f.trigger_events(&[T::BlockingEnd], t0 + std::time::Duration::from_nanos(b)).count();
+                        f.trigger_events(&[T::NormalRecv], t0 + std::time::Duration::from_nanos(e)).map(conv_std).collect::<Vec<Act>>()
+                    }));
+                    calls += 3;
+                    let Ok(acts) = r else { continue }; // a panic is C01's business
+                    if acts.iter().any(|a| matches!(a, Act::Block { .. })) && !share_below_ns(b, e, frac) {
+                        let sig = "C03:std-time:share-misjudged-above-2^53ns".to_string();
+                        if !fails.iter().any(|x| x.0 == sig) {
+                            fails.push((sig, format!("std::time clock, {} fraction {frac}, budget 0: blocked {b} ns of {e} ns elapsed (share {} the limit) and BlockOutgoing was returned", if own { "machine" } else { "framework" }, if extra == 0 { "exactly equal to" } else { "above" }), json!({"property": "C03", "engine": "E1-std-time-huge", "blocked_ns": b, "elapsed_ns": e, "fraction": frac, "machine_fraction": own, "message": "share not below the limit, action returned"})));
+                        }
+                    }
+                }
+            }
+        }
+    }
+    (calls, fails)
+}
+
 pub fn std_time_configs() -> Vec<Cfg> {
     let mut lib = vec![];
     for replace in [false, true] {
@@ -297,6 +335,11 @@ pub fn worker(ctx: &WorkerCtx) -> WorkerOut {
                 }
             }
         }
+        let (hc, hf) = std_time_huge();
+        s.coverage["std_time_calls_with_spans_above_2^53_ns"] = json!(hc);
+        for (sig, msg, replay) in hf {
+            s.reported.push(Rep { signature: sig, summary: msg, replay });
+        }
         s.coverage["std_time_configurations"] = json!(cfgs.len());
         s.coverage["std_time_depth"] = json!(depth);
         s.coverage["std_time_calls_all_histories"] = json!(calls);
@@ -311,6 +354,14 @@ pub fn worker(ctx: &WorkerCtx) -> WorkerOut {
     }
 }
 pub fn replay(v: &Value) -> Result<Option<String>, String> {
+    if v["engine"].as_str() == Some("E1-std-time-huge") {
+        let a = std_time_huge().1.into_iter().next().map(|x| x.1);
+        let b = std_time_huge().1.into_iter().next().map(|x| x.1);
+        if a.is_some() != b.is_some() {
+            return Err("std-time replay not deterministic".into());
+        }
+        return Ok(a);
+    }
     if v["engine"].as_str() == Some("E1-std-time") {
         let cfgs = std_time_configs();
         let i = v["config_index"].as_u64().ok_or("no config index")? as usize;
